@@ -394,6 +394,42 @@ def _variants():
     }
 
 
+def epoch_datetime(text):
+    """'<wall ms>@n' | '<wall ms>@<signed utc offset ms>' -> datetime whose own clock shows 1970-01-01 + wall ms."""
+    import datetime
+    wall, off = text.split("@")
+    tz = None if off == "n" else datetime.timezone(datetime.timedelta(milliseconds=int(off)))
+    return (datetime.datetime(1970, 1, 1) + datetime.timedelta(milliseconds=int(wall))).replace(tzinfo=tz)
+
+
+def prepared_epoch_ms(shape):
+    """What the prepared-statement path sends for a datetime_tz shape (or a list of one): the 8-byte big-endian
+    milliseconds cassandra.cqltypes.DateType.serialize produces, as an int.  None for other shapes."""
+    from harness.pyenv import repo_import
+    ct = repo_import("cassandra.cqltypes")
+    if shape["tag"] == "datetime_tz":
+        return int.from_bytes(ct.DateType.serialize(instantiate(shape), 4), "big", signed=True)
+    if shape["tag"] == "list" and len(shape["kids"]) == 1 and shape["kids"][0]["tag"] == "datetime_tz":
+        b = ct.ListType.apply_parameters([ct.DateType]).serialize(instantiate(shape), 4)
+        if len(b) != 16 or b[:8] != b"\x00\x00\x00\x01\x00\x00\x00\x08":
+            raise ValueError("unexpected list<timestamp> encoding %r" % b)
+        return int.from_bytes(b[8:], "big", signed=True)
+    return None
+
+
+def literal_epoch_ms(shape, text):
+    """The integer the substituted literal denotes for a datetime_tz shape (or a list of one), else None."""
+    ok, terms = mirror_term(text)
+    if not ok or len(terms) != 1:
+        return None
+    t = terms[0]
+    if shape["tag"] == "list":
+        if t[0] != "list" or len(t[1]) != 1:
+            return None
+        t = t[1][0]
+    return int(t[1]) if t[0] == "int" else None
+
+
 def instantiate(shape, base=False):
     """Shape (dict tag / p / kids as enumerated by TLC) -> a fresh Python value.
     base=True replaces every user subclass by the type it derives from (used only to classify a failure)."""
@@ -434,6 +470,8 @@ def instantiate(shape, base=False):
         return type("MyUUID", (uuid.UUID,), {})(text)
     if tag == "none":
         return None
+    if tag == "datetime_tz":
+        return epoch_datetime(text)
     v = _variants()
     if tag in v:
         return v[tag][int(text) - 1]
